@@ -735,6 +735,12 @@ def r5c(prog, rep, require_floor=True):
                 for x in org.calls:
                     if x.short == 'len' and x.arg_local(0) is not None:
                         bounded[place_id(fn, x.arg_local(0))] = 'the range it iterates over ends at %s.len()' % fn.describe_local(place_id(fn, x.arg_local(0))[0]).split(':')[0]
+            # ... or the index is the position of an element of another sequence (`for (i, x) in xs.iter().enumerate() { ys[i] }`)
+            for x in org.calls:
+                if x.short == 'enumerate' and x.arg_local(0) is not None:
+                    src = mir.nearest_user_local(fn, x.args[0])
+                    if src is not None and re.search(r'Vec<|\[|StringRecord|ByteRecord|VecDeque<', fn.ty.get(src, '')):
+                        bounded[place_id(fn, src)] = 'it is the position of an element of %s' % fn.describe_local(src).split(':')[0]
             nu = mir.nearest_user_local(fn, il)
             idx_roots = {il} | ({nu} if nu is not None else set())
             related = False
